@@ -15,4 +15,33 @@ CHECKS = {
     },
 }
 
+CHECKS["C01"] = {
+    "engine": "STREAM",
+    "design_ref": "§3 C01, §2.5, §2.6",
+    "technique": "exhaustive enumeration of mutated request streams vs independent RFC 9112 reader",
+    "text": "Every baseline request of a grammar x every mutation operator at every segment (pairs in thorough), every byte substitution/insertion/deletion "
+            "from a fixed alphabet at every offset, and all token strings up to depth d over five framing sub-languages are read both by an independent strict "
+            "RFC 9112 reader and by the real HttpRequestParser; boundaries, method, target, version, field list, body bytes and chunk ends must agree, "
+            "MUST-reject streams must be rejected, and representatives go through a real RequestHandler (4xx + close).",
+    "note": TRUST + " The reference reader (refs/http1.py) is three-valued: where RFC 9112 says MAY/SHOULD and the property names nothing the verdict is EITHER and only earlier messages are compared.",
+}
+CHECKS["C03"] = {
+    "engine": "STREAM",
+    "design_ref": "§3 C03, §2.5",
+    "technique": "exhaustive cut enumeration (all 1-cuts, 2-cuts, byte-at-a-time, all 2^(n-1) for n<=12) vs the un-cut run",
+    "text": "For each stream of the request corpus (baselines, every single mutation, limit-approach inputs incl. pipelined ones) and a response corpus, under "
+            "equal, unequal and tiny-buffer limit configurations, every segmentation of the stated classes is fed to the real parser followed by feed_eof and "
+            "compared field by field with the un-cut run: verdict, limit verdict, messages, bodies, chunk ends, tail.",
+    "note": TRUST + " Oracle is the un-cut run of the same implementation; payload streams are drained after every feed so a paused parser is resumed.",
+}
+CHECKS["C10"] = {
+    "engine": "STREAM",
+    "design_ref": "§3 C10",
+    "technique": "exhaustive stream/cut/limit enumeration with exception-class, limit, retained-bytes and call-count monitors",
+    "text": "All corpus streams x all single cuts x limit configs, hostile request-targets, limit-1/limit/limit+1 inputs in every syntactic position, response corpus with byte "
+            "mutations: only HttpProcessingError may leave the parsers, over-limit inputs are rejected and within-limit ones are not, retained bytes are bounded after every "
+            "feed, call counts grow linearly on doubling families, and the real server/client protocol turn errors into 400 / client errors without anything escaping.",
+    "note": TRUST + " Work is measured as Python call events on enumerated families only; a field's size is the length of its whole line.",
+}
+
 NOT_APPLICABLE = {}
